@@ -107,8 +107,8 @@ func runC03(c *Ctx) {
 	}
 	if h := c.A.Func("(*Conn).handle"); h != nil {
 		for _, site := range s.Find(h, "call:(*Conn).handleGreet") {
-			c.obUnreach("handleGreet", site, `Server.LMTP == true`, `strings.ToUpper(param1) != "LHLO"`)
-			c.obUnreach("handleGreet", site, `Server.LMTP == false`, `strings.ToUpper(param1) == "LHLO"`)
+			c.obUnreach("handleGreet", site, `Server.LMTP == true`, verbTag(c)+` != "LHLO"`)
+			c.obUnreach("handleGreet", site, `Server.LMTP == false`, verbTag(c)+` == "LHLO"`)
 		}
 	}
 
@@ -247,8 +247,8 @@ func runC03(c *Ctx) {
 // transaction run the connection's reset() (RSET, a repeated greeting) or Close (QUIT), which abort an open transfer.
 func ruleAbandonResets(c *Ctx) {
 	if f := c.A.Func("(*Conn).handle"); f != nil {
-		c.obMustUnder("RSET resets", f, []string{lReset}, `strings.ToUpper(param1) == "RSET"`, `param1 != ""`)
-		c.obMustUnder("QUIT closes", f, []string{lClose}, `strings.ToUpper(param1) == "QUIT"`, `param1 != ""`)
+		c.obMustUnder("RSET resets", f, []string{lReset}, verbTag(c)+` == "RSET"`, `param1 != ""`)
+		c.obMustUnder("QUIT closes", f, []string{lClose}, verbTag(c)+` == "QUIT"`, `param1 != ""`)
 	}
 	if f := c.A.Func("(*Conn).handleGreet"); f != nil {
 		c.obMustUnder("repeated EHLO resets", f, []string{lReset}, aSessSet, `parseHelloArgument(param2)#1 == nil`)
